@@ -1,10 +1,15 @@
 //! C15 generator: line-oriented valid projects + text shapes + one planted local error.
+//!
+//! Development switches (environment; never set by `./check`): `C15_AVOID=1` forces the avoid switch for the kinds behind
+//! open findings (outer-stmt, syntax-eof) on for every case (the run must then be silent; used for the sensitivity
+//! experiments), `C15_AVOID=0` forces it off, `C15_KIND=<kind>` plants only that kind.
 use super::*;
 
 #[derive(Clone)]
 struct FnInfo {
     name: String,
     params: Vec<&'static str>,
+    #[allow(dead_code)]
     ret: &'static str,
 }
 #[derive(Clone)]
@@ -650,7 +655,7 @@ const OUTER_STMT: [&str; 6] = ["break", "print(1)", "1 + 1", "{x} = 1", "ret 1",
 const TRAILERS: [&str; 7] = ["", "", "", " // note", "   ", "\t", " // åäö 😀"];
 
 pub fn generate(t: &mut Tape, _tier: Tier) -> Case {
-    // 80 % of the budget avoids the two kinds behind reported findings
+    // 80 % of the budget avoids the kind behind the open finding (outer-stmt); syntax-eof was fixed in 5895c94
     let avoid_known = match std::env::var("C15_AVOID").ok().as_deref() {
         Some("1") => {
             let _ = t.byte();
@@ -725,8 +730,14 @@ pub fn generate(t: &mut Tape, _tier: Tier) -> Case {
 }
 
 fn gen_plant(g: &mut G, files: &mut Vec<FileGen>, pfile: usize, avoid_known: bool) -> Plant {
-    let kw: [u32; 12] = [20, 12, 10, 10, 10, 10, 10, 8, 8, if avoid_known { 0 } else { 14 }, if avoid_known { 0 } else { 8 }, 5];
-    let kind = KINDS[g.t.weighted(&kw)];
+    let kw: [u32; 12] = [20, 12, 10, 10, 10, 10, 10, 8, 8, if avoid_known { 0 } else { 14 }, 8, 5];
+    let mut kind = KINDS[g.t.weighted(&kw)];
+    // development switch: only one kind
+    if let Ok(k) = std::env::var("C15_KIND") {
+        if let Some(found) = KINDS.iter().find(|x| **x == k) {
+            kind = found;
+        }
+    }
     let k = g.fresh();
     let x = format!("zx{}", k);
     let mut p = Plant { kind: kind.to_string(), file: pfile, ..Default::default() };
@@ -765,18 +776,31 @@ fn gen_plant(g: &mut G, files: &mut Vec<FileGen>, pfile: usize, avoid_known: boo
         }
         let depth = g.t.weighted(&[3, 3, 2, 1]);
         for _ in 0..depth {
-            let w = g.wrap(kind != "break");
+            let w = g.wrap(true);
             p.wraps.push(w);
+        }
+        if kind == "break" {
+            // `break` must not see a loop of its own function: a loop wrapper needs a function literal inside it
+            let mut in_loop = false;
+            for w in &p.wraps {
+                match w.kind.as_str() {
+                    "loop" => in_loop = true,
+                    "closure" | "fresh-fn" => in_loop = false,
+                    _ => {}
+                }
+            }
+            if in_loop {
+                p.wraps.push(Wrap { kind: "closure".into(), open: vec![format!("zq{} :: fn do", k)], close: vec!["end".into(), format!("zq{}()", k)], inner: 1 });
+            }
         }
     } else {
         p.piece = late(g, npieces);
     }
     let sub = |s: &str| s.replace("{x}", &x);
-    // known finding: the deferred check of unary minus is reported on the first line of the enclosing construct; the
-    // avoid switch keeps unary-minus plants out of multi-line constructs
+    // (unary minus used to be checked late and reported on the first line of the enclosing construct: fixed in 25e04d4)
     let expr_ctx = match kind {
         "syntax" | "unresolved" | "operator" => g.t.chance(1, 4),
-        "unary-minus" => !avoid_known && g.t.chance(2, 3),
+        "unary-minus" => g.t.chance(1, 2),
         _ => false,
     };
     if expr_ctx {
@@ -891,7 +915,15 @@ fn gen_plant(g: &mut G, files: &mut Vec<FileGen>, pfile: usize, avoid_known: boo
             // (not the names the text shapes define: removing a shape must not remove the duplicate)
             let defs: Vec<(String, String)> =
                 files[pfile].pieces.iter().filter(|pc| pc.shape.is_none()).flat_map(|pc| pc.defines.iter().map(move |(n, _)| (n.clone(), pc.role.clone()))).collect();
-            if defs.is_empty() {
+            if g.t.chance(1, 6) {
+                // a name twice inside one declaration
+                p.spelling = "member-twice".into();
+                p.line = match g.t.below(3) {
+                    0 => format!("Zd{} :: enum A, B int, A end", k),
+                    1 => format!("Zd{} :: blob {{ a: int, b: str, a: int }}", k),
+                    _ => format!("Zd{} :: enum Aa, Aa end", k),
+                };
+            } else if defs.is_empty() {
                 // nothing to duplicate: define twice ourselves
                 p.setup.push(format!("{} :: 1", x));
                 p.spelling = "adjacent".into();
@@ -1061,7 +1093,11 @@ fn gen_plant(g: &mut G, files: &mut Vec<FileGen>, pfile: usize, avoid_known: boo
         "unary-minus" => {
             let i = g.t.below(UNARY_MINUS.len());
             p.spelling = format!("def{}", i);
-            p.line = if g.t.bool() { format!("{} :: {}", x, UNARY_MINUS[i]) } else { format!("{} :: 1 + {}", x, UNARY_MINUS[i]) };
+            p.line = match g.t.below(3) {
+                0 => format!("{} :: {}", x, UNARY_MINUS[i]),
+                1 if in_block => UNARY_MINUS[i].to_string(),
+                _ => format!("{} :: 1 + {}", x, UNARY_MINUS[i]),
+            };
         }
         "break" => {
             p.spelling = "break".into();
